@@ -290,3 +290,223 @@ Qed.
 Theorem count_fast_path_keyless_refuted :
   exists col rows, count_fast_path true col rows <> count_spec col rows.
 Proof. exists (Some O), [[None; Some 1]]. vm_compute. discriminate. Qed.
+
+(* ------------------------------------------------------------------ *)
+(* (b) joins                                                           *)
+Definition sle (a b : cell * row) : Prop := cmp_cell (fst a) (fst b) <> Gt.
+Definition nulls (S : side) : nat := length (filter (fun x => is_none (fst x)) S).
+
+Lemma jf_eq : forall l r, jf l r = true -> cmp_cell (fst l) (fst r) = Eq.
+Proof. intros [a la] [b lb]; unfold jf; cbn [fst]. cc. Qed.
+
+Lemma jf_none : forall (l : cell * row) (R : side), @fst cell row l = None -> filter (jf l) R = [].
+Proof. intros l R H. apply filter_none. intros x _. unfold jf. rewrite H. reflexivity. Qed.
+
+Lemma flat_map_ext_in' : forall {A B} (f g : A -> list B) l,
+  (forall x, In x l -> f x = g x) -> flat_map f l = flat_map g l.
+Proof.
+  intros A B f g l; induction l as [|x l IH]; intros H; [reflexivity|].
+  cbn [flat_map]. rewrite (H x (or_introl eq_refl)). f_equal. apply IH. intros y Hy. apply H. right. exact Hy.
+Qed.
+
+Lemma flat_map_perm_in : forall {A B} (f g : A -> list B) l,
+  (forall x, In x l -> Permutation (f x) (g x)) -> Permutation (flat_map f l) (flat_map g l).
+Proof.
+  intros A B f g l; induction l as [|x l IH]; intros H; [constructor|].
+  cbn [flat_map]. apply Permutation_app; [apply H; left; reflexivity|].
+  apply IH. intros y Hy. apply H. right. exact Hy.
+Qed.
+
+Lemma emit_perm : forall lo l ms ms', Permutation ms ms' -> Permutation (emit lo l ms) (emit lo l ms').
+Proof.
+  intros lo l ms ms' H. destruct ms as [|m ms].
+  - apply Permutation_nil in H. subst. apply Permutation_refl.
+  - destruct ms' as [|m' ms']; [apply Permutation_sym in H; apply Permutation_nil in H; discriminate|].
+    unfold emit. apply Permutation_map. exact H.
+Qed.
+
+Lemma span_spec : forall {A} (p : A -> bool) l a b, span p l = (a, b) ->
+  l = a ++ b /\ Forall (fun x => p x = true) a /\ match b with [] => True | y :: _ => p y = false end.
+Proof.
+  intros A p l; induction l as [|x l IH]; intros a b H; cbn [span] in H.
+  - injection H as <- <-. repeat split; constructor.
+  - destruct (p x) eqn:Hp.
+    + destruct (span p l) as [a' b'] eqn:Hs. injection H as <- <-.
+      destruct (IH a' b' eq_refl) as [H1 [H2 H3]]. subst l. repeat split; [constructor; assumption | exact H3].
+    + injection H as <- <-. repeat split; [constructor | exact Hp].
+Qed.
+
+Lemma sorted_app : forall {A} (R : A -> A -> Prop) a b, StronglySorted R (a ++ b) ->
+  StronglySorted R b /\ (forall x y, In x a -> In y b -> R x y).
+Proof.
+  intros A R a; induction a as [|z a IH]; intros b H; cbn [app] in *.
+  - split; [exact H | intros x y []].
+  - inversion H as [|z' l' Hs Hz]; subst. destruct (IH b Hs) as [H1 H2]. split; [exact H1|].
+    intros x y [Hx|Hx] Hy.
+    + subst x. rewrite Forall_forall in Hz. apply Hz. apply in_or_app. right. exact Hy.
+    + apply H2; assumption.
+Qed.
+
+(* all rows after a maximal run of keys equal to k in a sorted side have a strictly larger key *)
+Lemma after_span_gt : forall k (S a b : side),
+  StronglySorted sle S -> (forall x, In x S -> cmp_cell k (fst x) <> Gt) ->
+  span (fun x => cmp_is_eq (cmp_cell k (fst x))) S = (a, b) ->
+  forall y, In y b -> cmp_cell k (fst y) = Lt.
+Proof.
+  intros k S a b Hs Hge Hsp y Hy. destruct (span_spec _ _ _ _ Hsp) as [H1 [_ H3]]. subst S.
+  destruct (sorted_app sle a b Hs) as [Hb _].
+  destruct b as [|z b]; [destruct Hy|].
+  assert (Hz : cmp_cell k (fst z) = Lt).
+  { assert (Hiz : In z (a ++ z :: b)) by (apply in_or_app; right; left; reflexivity).
+    specialize (Hge z Hiz).
+    destruct (cmp_cell k (fst z)); cbn [cmp_is_eq] in H3; congruence. }
+  destruct Hy as [Hy|Hy]; [subst y; exact Hz|].
+  inversion Hb as [|z' b' _ Hzb]; subst. rewrite Forall_forall in Hzb. specialize (Hzb y Hy). unfold sle in Hzb.
+  revert Hz Hzb. generalize (fst z) (fst y). cc.
+Qed.
+
+Lemma span_eq_keys : forall k (S a b : side), span (fun x => cmp_is_eq (cmp_cell k (fst x))) S = (a, b) ->
+  forall x, In x a -> fst x = k.
+Proof.
+  intros k S a b Hsp x Hx. destruct (span_spec _ _ _ _ Hsp) as [_ [H2 _]]. rewrite Forall_forall in H2.
+  specialize (H2 x Hx). symmetry. apply cmp_cell_eq. destruct (cmp_cell k (fst x)); cbn [cmp_is_eq] in H2; congruence.
+Qed.
+
+Lemma jf_lt_none : forall l (S : side), (forall x, In x S -> cmp_cell (fst l) (fst x) = Lt) -> filter (jf l) S = [].
+Proof.
+  intros l S H. apply filter_none. intros x Hx. destruct (jf l x) eqn:Hj; [|reflexivity].
+  apply jf_eq in Hj. rewrite (H x Hx) in Hj. discriminate.
+Qed.
+
+Lemma jf_gt_none : forall l (S : side), (forall x, In x S -> cmp_cell (fst l) (fst x) = Gt) -> filter (jf l) S = [].
+Proof.
+  intros l S H. apply filter_none. intros x Hx. destruct (jf l x) eqn:Hj; [|reflexivity].
+  apply jf_eq in Hj. rewrite (H x Hx) in Hj. discriminate.
+Qed.
+
+Lemma nulls_app : forall a b, nulls (a ++ b) = (nulls a + nulls b)%nat.
+Proof. intros a b. unfold nulls. rewrite filter_app, app_length. reflexivity. Qed.
+
+Lemma nulls_all : forall (a : side), (forall x : cell * row, In x a -> @fst cell row x = None) -> nulls a = length a.
+Proof.
+  induction a as [|x a IH]; intros H; [reflexivity|]. unfold nulls in *. cbn [filter].
+  rewrite (H x (or_introl eq_refl)). cbn [is_none length]. f_equal. apply IH. intros y Hy. apply H. right. exact Hy.
+Qed.
+
+Theorem merge_join_spec :
+  forall fuel lo L R, side_sorted L -> side_sorted R -> (length L + length R < fuel)%nat ->
+    lo = false \/ (nulls L <= 1)%nat ->
+    Permutation (merge_join fuel lo L R) (nl_join lo L R).
+Proof.
+  induction fuel as [|fuel IH]; intros lo L R HL HR Hf Hn; [lia|].
+  destruct L as [|l L']; [apply Permutation_refl|].
+  destruct R as [|r R'].
+  - cbn [merge_join]. unfold nl_join. cbn [filter]. destruct lo; [apply Permutation_refl|].
+    assert (Hnil : forall X : side, flat_map (fun l0 => emit false l0 (filter (jf l0) [])) X = []).
+    { induction X as [|x X IHX]; [reflexivity | cbn [flat_map filter emit app]; exact IHX]. }
+    rewrite Hnil. constructor.
+  - cbn [merge_join].
+    inversion HL as [|l0 L0 HL' HlL]; subst. inversion HR as [|r0 R0 HR' HrR]; subst.
+    rewrite Forall_forall in HlL, HrR. unfold sle in *.
+    destruct (cmp_cell (fst l) (fst r)) eqn:Hc.
+    + (* equal keys *)
+      destruct (span (fun r' => cmp_is_eq (cmp_cell (fst l) (fst r'))) R') as [buf R''] eqn:HsR.
+      destruct (span (fun l' => cmp_is_eq (cmp_cell (fst l) (fst l'))) L') as [grp L''] eqn:HsL.
+      pose proof (cmp_cell_eq _ _ Hc) as Hk.
+      assert (HgeR : forall x, In x R' -> cmp_cell (fst l) (fst x) <> Gt).
+      { intros x Hx. rewrite Hk. apply HrR. exact Hx. }
+      assert (HgeL : forall x, In x L' -> cmp_cell (fst l) (fst x) <> Gt) by (intros x Hx; apply HlL; exact Hx).
+      pose proof (after_span_gt _ _ _ _ HR' HgeR HsR) as HR''.
+      pose proof (after_span_gt _ _ _ _ HL' HgeL HsL) as HL''.
+      pose proof (span_eq_keys _ _ _ _ HsR) as Hbuf.
+      pose proof (span_eq_keys _ _ _ _ HsL) as Hgrp.
+      destruct (span_spec _ _ _ _ HsR) as [ER _]. destruct (span_spec _ _ _ _ HsL) as [EL _]. subst R' L'.
+      destruct (sorted_app _ _ _ HR') as [HsR'' _]. destruct (sorted_app _ _ _ HL') as [HsL'' _].
+      assert (Hlost : (if lo && (match buf with [] => true | _ => false end) && negb (jf l r) then length grp else O) = O).
+      { destruct Hn as [Hn|Hn]; [subst lo; reflexivity|].
+        destruct (jf l r) eqn:Hj; [rewrite andb_false_r; reflexivity|].
+        destruct (fst l) as [v|] eqn:Hfl.
+        - unfold jf in Hj. rewrite Hfl, <- Hk in Hj. rewrite Z.eqb_refl in Hj. discriminate.
+        - assert (Hg : nulls grp = length grp) by (apply nulls_all; intros x Hx; apply Hgrp; exact Hx).
+          change (l :: grp ++ L'') with ([l] ++ grp ++ L'') in Hn. rewrite !nulls_app in Hn.
+          assert (nulls [l] = 1%nat) by (unfold nulls; cbn [filter]; rewrite Hfl; reflexivity).
+          assert (length grp = O) by lia. destruct (lo && _ && _); [assumption | reflexivity]. }
+      rewrite Hlost. cbn [skipn].
+      unfold nl_join. change (l :: grp ++ L'') with ((l :: grp) ++ L''). rewrite flat_map_app.
+      apply Permutation_app.
+      * apply flat_map_perm_in. intros l' Hl'. apply emit_perm.
+        assert (Hkl : fst l' = fst l) by (destruct Hl' as [<-|Hl']; [reflexivity | apply Hgrp; exact Hl']).
+        change (r :: buf ++ R'') with ((r :: buf) ++ R''). rewrite (filter_app (jf l') (r :: buf) R'').
+        rewrite (jf_lt_none l' R''); [|intros x Hx; rewrite Hkl; apply HR''; exact Hx].
+        rewrite app_nil_r, filter_app. cbn [filter]. destruct (jf l' r); cbn [app].
+        -- apply Permutation_sym. apply Permutation_cons_append.
+        -- rewrite app_nil_r. apply Permutation_refl.
+      * rewrite (flat_map_ext_in' (fun l0 => emit lo l0 (filter (jf l0) (r :: buf ++ R'')))
+                                  (fun l0 => emit lo l0 (filter (jf l0) R''))).
+        -- apply (IH lo L'' R'' HsL'' HsR'').
+           ++ cbn [length] in Hf. rewrite !app_length in Hf. lia.
+           ++ destruct Hn as [Hn|Hn]; [left; exact Hn|right].
+              change (l :: grp ++ L'') with ((l :: grp) ++ L'') in Hn. rewrite nulls_app in Hn. lia.
+        -- intros l'' Hl''. f_equal. change (r :: buf ++ R'') with ((r :: buf) ++ R''). rewrite filter_app.
+           rewrite (jf_gt_none l'' (r :: buf)); [reflexivity|].
+           intros x Hx. assert (Hx' : fst x = fst l) by (destruct Hx as [<-|Hx]; [symmetry; exact Hk | apply Hbuf; exact Hx]).
+           rewrite Hx'. specialize (HL'' l'' Hl''). revert HL''. generalize (fst l) (fst l''). cc.
+    + (* left key smaller: no right row matches it *)
+      unfold nl_join. cbn [flat_map]. apply Permutation_app.
+      * rewrite (jf_lt_none l (r :: R')); [apply Permutation_refl|].
+        intros x [<-|Hx]; [exact Hc|]. specialize (HrR x Hx). revert Hc HrR. generalize (fst l) (fst r) (fst x). cc.
+      * apply (IH lo L' (r :: R') HL' HR); [cbn [length] in *; lia|].
+        destruct Hn as [Hn|Hn]; [left; exact Hn|right].
+        change (l :: L') with ([l] ++ L') in Hn. rewrite nulls_app in Hn. lia.
+    + (* right key smaller: it matches no left row *)
+      rewrite (IH lo (l :: L') R' HL HR'); [|cbn [length] in *; lia | exact Hn].
+      unfold nl_join. rewrite (flat_map_ext_in' (fun l0 => emit lo l0 (filter (jf l0) (r :: R')))
+                                                 (fun l0 => emit lo l0 (filter (jf l0) R'))); [apply Permutation_refl|].
+      intros l' Hl'. f_equal. cbn [filter]. destruct (jf l' r) eqn:Hj; [|reflexivity].
+      apply jf_eq in Hj. exfalso.
+      destruct Hl' as [<-|Hl']; [congruence|]. specialize (HlL l' Hl'). revert Hc HlL Hj.
+      generalize (fst l) (fst r) (fst l'). cc.
+Qed.
+
+(* full statement (fails): the same without the hypothesis on NULL keys.  Two left rows with NULL keys, one right row
+   with a NULL key followed by a matching pair: the LEFT merge join loses the right row. *)
+Theorem merge_join_left_refuted :
+  exists L R, side_sorted L /\ side_sorted R /\
+    ~ Permutation (merge_join (S (length L + length R)) true L R) (nl_join true L R).
+Proof.
+  exists [(None, [Some 1]); (None, [Some 2]); (Some 0, [Some 3])], [(None, [Some 1]); (Some 0, [Some 2])].
+  split; [|split].
+  - repeat constructor; cbn; discriminate.
+  - repeat constructor; cbn; discriminate.
+  - intro H. vm_compute in H.
+    assert (Hin : In ([Some 3], Some [Some 2]) [([Some 1], None); ([Some 2], None); ([Some 3], None)]).
+    { apply (Permutation_in _ (Permutation_sym H)). right. right. left. reflexivity. }
+    cbn in Hin. destruct Hin as [Hin|[Hin|[Hin|[]]]]; discriminate.
+Qed.
+
+Lemma lookup_filter : forall l R, side_sorted R -> filter (jf l) (lookup (fst l) R) = filter (jf l) R.
+Proof.
+  intros l R HR. destruct (fst l) as [v|] eqn:Hfl; [|rewrite (jf_none l R Hfl); reflexivity].
+  unfold lookup. destruct (v <? incr32 v) eqn:Hi.
+  - assert (Hinc : incr32 v = v + 1) by (unfold incr32, max32, min32 in *; zb).
+    rewrite (slice_filter sle); [| exact HR | |].
+    + apply filter_filter_sub. intros x _ Hj. apply jf_eq in Hj. rewrite Hfl in Hj. apply cmp_cell_eq in Hj.
+      rewrite <- Hj, Hinc. cbn [cmp_cell]. zb.
+    + intros a b Hab. unfold sle in Hab. revert Hab. generalize (fst a) (fst b). cc.
+    + intros a b Hab. unfold sle in Hab. revert Hab. generalize (fst a) (fst b). cc.
+  - rewrite (slice_filter sle); [| exact HR | |].
+    + rewrite filter_filter_sub.
+      * apply filter_filter_sub. intros x _ Hj. apply jf_eq in Hj. rewrite Hfl in Hj. apply cmp_cell_eq in Hj.
+        rewrite <- Hj. cbn [cmp_cell]. rewrite Z.compare_refl. reflexivity.
+      * intros x _ Hj. apply jf_eq in Hj. rewrite Hfl in Hj. apply cmp_cell_eq in Hj.
+        rewrite <- Hj. cbn [cmp_cell cmp_is_eq]. rewrite Z.compare_refl. reflexivity.
+    + intros a b Hab. unfold sle in Hab. revert Hab. generalize (fst a) (fst b). cc.
+    + intros a b Hab. unfold sle in Hab. revert Hab. generalize (fst a) (fst b). cc.
+Qed.
+
+Theorem lookup_join_spec :
+  forall lo L R, side_sorted R -> lookup_join lo L R = nl_join lo L R.
+Proof.
+  intros lo L R HR. unfold lookup_join, nl_join. apply flat_map_ext. intros l.
+  rewrite (lookup_filter l R HR). reflexivity.
+Qed.
